@@ -4,7 +4,6 @@
 package props
 
 import (
-	"encoding/json"
 	"fmt"
 	"hash/fnv"
 	"sort"
@@ -61,12 +60,75 @@ type Plan struct {
 	XV     [][]uint64        `json:"xv,omitempty"` // property specific numeric lists
 }
 
-// Clone deep-copies a plan through JSON.
+// Clone deep-copies a plan (empty slices become nil, as a JSON round trip would make them).
 func (p Plan) Clone() Plan {
-	b, _ := json.Marshal(p)
-	var q Plan
-	json.Unmarshal(b, &q)
+	q := p
+	q.Conns = append([]ConnSpec(nil), p.Conns...)
+	q.Faults = append([]kernel.Fault(nil), p.Faults...)
+	if p.Steps != nil {
+		q.Steps = make([]Step, len(p.Steps))
+		for i, st := range p.Steps {
+			q.Steps[i] = st
+			if st.Op != nil {
+				o := cloneOp(*st.Op)
+				q.Steps[i].Op = &o
+			}
+			q.Steps[i].Pipe = cloneOps(st.Pipe)
+			q.Steps[i].Evict = append([]string(nil), st.Evict...)
+		}
+	}
+	if p.X != nil {
+		q.X = make(map[string]int64, len(p.X))
+		for k, v := range p.X {
+			q.X[k] = v
+		}
+	}
+	if p.XS != nil {
+		q.XS = make(map[string]string, len(p.XS))
+		for k, v := range p.XS {
+			q.XS[k] = v
+		}
+	}
+	if p.Progs != nil {
+		q.Progs = make([][]wire.Op, len(p.Progs))
+		for i, pr := range p.Progs {
+			q.Progs[i] = cloneOps(pr)
+		}
+	}
+	if p.XV != nil {
+		q.XV = make([][]uint64, len(p.XV))
+		for i, v := range p.XV {
+			q.XV[i] = append([]uint64(nil), v...)
+		}
+	}
 	return q
+}
+
+func cloneOps(ops []wire.Op) []wire.Op {
+	if ops == nil {
+		return nil
+	}
+	out := make([]wire.Op, len(ops))
+	for i, o := range ops {
+		out[i] = cloneOp(o)
+	}
+	return out
+}
+
+func cloneOp(o wire.Op) wire.Op {
+	o.Keys = append([]string(nil), o.Keys...)
+	o.Quiets = append([]bool(nil), o.Quiets...)
+	// Data and Raw are shared: payload bytes are never modified in place (the shrinker
+	// re-slices), and enumerations hold hundreds of thousands of plans
+	o.KeyB = append([]byte(nil), o.KeyB...)
+	if o.KeysB != nil {
+		kb := make([][]byte, len(o.KeysB))
+		for i, k := range o.KeysB {
+			kb[i] = append([]byte(nil), k...)
+		}
+		o.KeysB = kb
+	}
+	return o
 }
 
 // Violation is a property violation found in a run.
